@@ -26,7 +26,8 @@ REQUIRE = {'quick': {'instances': 300, 'output_comparisons': 20000, 'portmaps_ch
 
 def gen_cases(tier, seed):
     n = 160 if tier == 'quick' else 4000
-    cases = []
+    cases = [{'k': 'inout', 'f': f, 'root': root, 'view': view, 'slc': slc} for f in ('u', 's', 'bv') for root in ('u', 's', 'bv')
+             for view in ('unsigned', 'signed', 'bitvector', None) for slc in (False, True)]
     for i in range(n):
         cases.append({'seed': seed * 100003 + i, 'depth': 1 + i % 3, 'style': 'noviews' if i % 5 == 0 else 'mixed',
                       'clocks': 60 if tier == 'quick' else 200})
@@ -82,11 +83,15 @@ def structural(g, text, cnt):
     used = {nd.name: nd for nd in g.nodes}
     reach = set()
 
+    def all_insts(nd):
+        # a derived entity class runs the body of its base class: it contains the base's instances as well
+        return (all_insts(nd.base) if getattr(nd, 'base', None) is not None else []) + nd.insts
+
     def walk(nd):
         if nd.name in reach:
             return
         reach.add(nd.name)
-        for i in nd.insts:
+        for i in all_insts(nd):
             walk(i['child'])
     walk(used['Top'])
     for name in reach:
@@ -111,7 +116,7 @@ def structural(g, text, cnt):
         insts = [s for s in ar[0][4] if s[0] == 'inst']
         outs = {n.lower() for n, d, t, _ in nd.ports if d == 'out'}
         expected = Counter()
-        for i in nd.insts:
+        for i in all_insts(nd):
             m = []
             for f, (txt, root, sel) in i['actuals'].items():
                 rootn = root.lower()
@@ -159,7 +164,84 @@ def stimuli(top, rnd, n):
     return ins, seq
 
 
+KT = {'u': 'Unsigned', 's': 'Signed', 'bv': 'BitVector'}
+KV = {'u': 'unsigned', 's': 'signed', 'bv': 'std_logic_vector'}
+_io = [0]
+
+
+def run_inout(case):
+    """inout ports are wired in both directions: with a typed view as actual the association needs the conversion on the
+    formal side (value leaving the instance) and on the actual side (value entering it).  vsim does not execute inout
+    associations, so this sub-case checks the emitted association text against the declared types."""
+    cnt = Counter()
+    f, root, view, slc = case['f'], case['root'], case['view'], case['slc']
+    # the CoHDL type of the actual must equal the formal type
+    vk = {'unsigned': 'u', 'signed': 's', 'bitvector': 'bv', None: ('bv' if slc else root)}[view]
+    if vk != f:
+        return result(cnt={'inout_not_applicable': 1})
+    _io[0] += 1
+    cname = f"IO{_io[0]}"
+    w = 8 if slc else 4
+    actual = "self.io" + ("[7:4]" if slc else "") + (f".{view}" if view else "")
+    src = hiergen.HEADER + f"""
+class Leaf{_io[0]}(Entity):
+    sel = Port.input(Bit)
+    pad = Port.inout({KT[f]}[4])
+    q = Port.output(BitVector[4])
+    def architecture(self):
+        @std.concurrent
+        def logic():
+            self.q <<= self.pad.bitvector if self.sel else ~self.pad.bitvector
+
+class {cname}(Entity):
+    sel = Port.input(Bit)
+    io = Port.inout({KT[root]}[{w}])
+    q = Port.output(BitVector[4])
+    def architecture(self):
+        Leaf{_io[0]}(sel=self.sel, pad={actual}, q=self.q)
+"""
+    mod = load_source(src, 'c12io')
+    try:
+        try:
+            comp = compile_top(getattr(mod, cname))
+        except Rejected as r:
+            cnt['inout_rejected'] += 1
+            cnt['inout_rejected:' + r.msg[:50].replace('\n', ' ')] += 1
+            return result(cnt=dict(cnt))
+    finally:
+        unload(mod)
+    units = vparse.parse(comp.text)[0]
+    viol = []
+    found = False
+    for u in units:
+        if u[0] != 'arch':
+            continue
+        for st in u[4]:
+            if st[0] != 'inst':
+                continue
+            for fm, a in st[6]:
+                name = fm[2] if fm.__class__ is tuple else fm
+                if name.lower() != 'pad':
+                    continue
+                found = True
+                fconv = fm[1].lower() if fm.__class__ is tuple else None
+                aconv = a[1][1].lower() if (a[0] == 'call' and a[1][0] == 'id' and a[1][1].lower() in CONV) else None
+                # VHDL type of the actual name: the root's type (a slice keeps it)
+                want_f, want_a = (KV[root], KV[f]) if KV[root] != KV[f] else (None, None)
+                cnt['inout_associations_checked'] += 1
+                if (fconv, aconv) != (want_f, want_a):
+                    viol.append(violation('inout-association-conversion',
+                                          f"inout formal pad : {KV[f]} associated with {actual} (VHDL type {KV[root]}): emitted "
+                                          f"`{(fconv + '(pad)') if fconv else 'pad'} => {(aconv + '(..)') if aconv else '<name>'}`, needed "
+                                          f"`{(want_f + '(pad)') if want_f else 'pad'} => {(want_a + '(..)') if want_a else '<name>'}`", source=src, vhdl=comp.text))
+    if not found:
+        return result(cnt=dict(cnt), inconclusive="port map association of the inout port not found")
+    return result(sig=digest('inout', case) if not viol else None, viol=viol, cnt=dict(cnt))
+
+
 def run_case(case):
+    if case.get('k') == 'inout':
+        return run_inout(case)
     cnt = Counter()
     rnd = random.Random(case['seed'])
     g, top = hiergen.generate(case['seed'], max_depth=case['depth'], style=case['style'])
@@ -176,6 +258,7 @@ def run_case(case):
     finally:
         unload(mod)
     ninst = sum(len(n.insts) for n in g.nodes)
+    cnt['derived_entity_classes'] += sum(1 for n in g.nodes if getattr(n, 'base', None) is not None)
     if rej:
         if len(rej) == 2:
             cnt['rejected_both'] += 1
